@@ -5,6 +5,7 @@ import copy
 import random
 from concurrent.futures import ThreadPoolExecutor
 
+import common
 from impl import crash, engine
 
 ASSUMPTIONS = [
@@ -235,16 +236,31 @@ def run(ctx):
     ctx.extra["hash_seeds"] = hashseeds
     pool = crash.make_pool(hashseeds)
     try:
+        f20 = crash.f20_witness(pool.pick(0))
         with ThreadPoolExecutor(max_workers=nseeds) as ex:
             results = list(ex.map(lambda a: run_unit(pool.pick(a[0]), a[1]), enumerate(jobs)))
     finally:
         pool.close()
+    # finding F20 (kill between two row commits of a task + an edit after the kill): replayed on every run; reported as a
+    # KNOWN-FINDING once the integrator has listed it in known_findings.json, recorded in the evidence in any case
+    ctx.extra["F20_witness"] = f20
+    ctx.case(["F20-witness"], bool(f20.get("reproduced")), None)
+    if f20.get("reproduced") and "F20" in {e["id"] for e in common.load_known("C05") if e.get("status") == "known"}:
+        ctx.violation("stale: after a kill between two row commits and a later edit of one input, the task is reported "
+                      f"{f20.get('outcome')} with a product computed from other inputs", {"witness": "F20", "layer": "crash-e2e"}, finding="F20")
     evaluate(ctx, results)
     ctx.extra["kill_scenarios"] = sum(len(r["runs"]) for r in results)
 
 
 def replay(ctx, obj):
     inp = obj["input"]
+    if inp.get("witness") == "F20":
+        pool = crash.make_pool([1])
+        try:
+            f20 = crash.f20_witness(pool.pick(0))
+        finally:
+            pool.close()
+        return (not f20.get("reproduced")), f"F20 witness: {f20}"
     job = {"case": inp["case"], "mode": "given", "budget": 0, "seed": inp.get("scenario_seed", 0), "scenarios": [inp["scenario"]]}
     if "scenario" not in inp:
         job = {"case": inp["case"], "mode": "all", "budget": 0, "seed": 0}
